@@ -1001,7 +1001,7 @@ def rw_mut_self(text, fired, fname):
 
 
 def rw_param_pat(text, pname, fired, fname):
-    """R26 (added for unit `sec_attrs`, directive `@@param_pat <name>`): the ONE parameter of the
+    """R27 (added for unit `sec_attrs`, directive `@@param_pat <name>`): the ONE parameter of the
     function that is written as a destructuring pattern (`fn from(S { a, b }: S) -> ..`, which Verus
     rejects: "function parameters must be a plain identifier pattern") becomes the plain parameter
     `<name>: S`, and the body starts with `let S { a, b } = <name>;` (PAT verbatim) — the meaning of a
@@ -1049,7 +1049,7 @@ def rw_param_pat(text, pname, fired, fname):
     ed = Edits(text)
     ed.replace(a, b, pname + keep_newlines(pat_txt))
     ed.insert(src.t(ob).end, ' let %s = %s;' % (' '.join(pat_txt.split()), pname))
-    fired.append(('R26', src.line_of(a), 'pattern parameter `%s` -> %s + let at body start' % (' '.join(pat_txt.split()), pname)))
+    fired.append(('R27', src.line_of(a), 'pattern parameter `%s` -> %s + let at body start' % (' '.join(pat_txt.split()), pname)))
     return ed.apply()
 
 
@@ -1131,7 +1131,7 @@ def splice_function(ft, directives, security=False):
         text = rw_mut_self(text, fired, ft.name)
     for d in directives:
         if d.kind == 'param_pat':
-            text = rw_param_pat(text, d.arg.strip(), fired, ft.name)   # R26 (unit sec_attrs)
+            text = rw_param_pat(text, d.arg.strip(), fired, ft.name)   # R27 (unit sec_attrs)
     if text.count('\n') != ft.orig.count('\n'):
         raise Undecided('unsupported-construct', 'internal: rewrite changed line count')
 
